@@ -18,7 +18,7 @@
                                       | portRestricted: g has sent to exactly that ip:port;      else dropped (filtered)
   NODES mirror Community/Network/Peer as far as the introduction protocol uses them — one Network, my_peer (Lamport clock)
     and endpoint shared by any number of overlays, identifiers derived from the clock (IPv4 only, endpoint without an
-    `interfaces` attribute, max_peers not reached, empty address blacklist, blacklist_mids = own mid):
+    `interfaces` attribute, blacklist_mids = own mid):
       lazy_wrapper's known-peer lookup + add_address(source);  on_old/new_introduction_request;  on_introduction_request;
       create_introduction_response (+ get_peer_for_introduction, get_verified_by_address);  on_old/new_introduction_response;
       on_introduction_response;  on_puncture_request;  on_puncture;  walk_to;  send_introduction_request;
@@ -155,6 +155,8 @@ structure Node where
   all : List Walk := []      -- Network._all_addresses, insertion order
   pref : List Nat := []      -- stands in for random.choice
   clock : Nat := 0           -- my_peer's Lamport clock (global time)
+  blacklist : List Addr := []      -- Network.blacklist (addresses of bootstrap servers: never verified, never walked to)
+  maxPeers : Nat := 30       -- Community.max_peers (DEFAULT_MAX_PEERS; the model only has non-negative limits)
 deriving Repr, Inhabited
 
 def inLanSubnets (ip : Nat) : Bool :=
@@ -208,13 +210,15 @@ def addMissing (all : List Walk) : List Addr → List Walk
   | [] => all
   | a :: t => addMissing (if all.any (fun w => w.addr == a) then all else all ++ [⟨a, none, false, none⟩]) t
 
-/-- Network.add_verified_peer (blacklist_mids = [own mid], address blacklist empty).  For a known key the stored object
+/-- Network.add_verified_peer (blacklist_mids = [own mid]).  For a known key the stored object
     is the one the handler mutated, so its fields are written back. -/
 def Node.addVerified (n : Node) (p : PeerRec) : Node :=
   if p.key == n.key then n
   else if n.knows p.key then n.setPeer p
-  else if p.addrs.any n.inAll then { n with peers := n.peers ++ [p] }
-  else { n with all := addMissing n.all p.addrs, peers := n.peers ++ [p] }
+  else if p.addrs.any n.inAll then { n with peers := n.peers ++ [p] }     -- (no blacklist test on this branch)
+  else if p.addrs.all (fun a => !n.blacklist.contains a) then
+    { n with all := addMissing n.all p.addrs, peers := n.peers ++ [p] }
+  else n
 
 def setWalk (a : Addr) (w : Walk) : List Walk → List Walk
   | [] => [w]
@@ -228,7 +232,7 @@ def Node.discover (n : Node) (p : PeerRec) (a : Addr) (ns : Bool) (s : Nat := 0)
       | none => true
       | some k => !n.knows k
   let n1 := if stale then { n with all := setWalk a ⟨a, some p.key, ns, some s⟩ n.all } else n
-  n1.addVerified p
+  if n.blacklist.contains a then n.addVerified p else n1.addVerified p
 
 /-- Network.is_new_style -/
 def Node.isNewStyle (n : Node) (a : Addr) : Bool :=
@@ -285,6 +289,9 @@ def Node.onIntroReq (n : Node) (src : Addr) (msgNs : Bool) (key ident : Nat) (pl
     Node × List Send :=
   let (p0, n0) := n.senderRec key src
   let p1 := { p0 with ns := p0.ns || msgNs }
+  let n0 := if n0.knows key then n0.setPeer p1 else n0     -- wrapper + on_old/new_introduction_request mutate a stored peer
+  -- `if 0 <= self.max_peers < len(self.get_peers()): return` — at capacity the request is not answered
+  if Gen.atCapacity n0.maxPeers (n0.getPeers s).length then (n0, []) else
   let p2 := if Gen.learnsLan pl then { p1 with lan := some (Gen.learnedLan pl) } else p1
   let n1 := (n0.addVerified p2).addSvc key s   -- (a stored object is mutated in place; addVerified writes a known key back)
   let (lanSock, sock, dst) := Gen.respArgs pl p2.view
